@@ -283,6 +283,17 @@ def trace_key(rj, res, script=None):
         return "C12:call-outlives-deadline"
     if k == "srv.corrupt":
         return "C12:client-stream-corrupt"
+    # whatever event comes first after a call has outlived deadline + slack is rejected (InTime): name the cause, not the event
+    seg = rj.get("segment") or []
+    if seg and "t" in e:
+        tmo, t0 = seg[0].get("timeout", 0), {}
+        for ev in seg[1:rj["accepted"]]:
+            if ev["k"] == "call":
+                t0[ev["i"]] = ev["t"]
+            elif ev["k"] == "return":
+                t0.pop(ev["i"], None)
+        if any(e["t"] > t + tmo + SLACK_MS for t in t0.values()):
+            return "C12:call-outlives-deadline"
     if k == "send.try":
         return "C12:send-not-exclusive"          # a second sender entered Send's critical section of Connection.mu
     if k == "rc.dialfail":
